@@ -150,8 +150,29 @@ func harmlessCallback(config Config) func() {
 func callbackAfterUnlock(config Config) func() {
 	return func() { config.DenyStore.CallbackUnlocked(func() { config.CodeStore.Locked("a") }) }
 }
+func completeHandler(config Config, notify chan string) func(string) int {
+	return func(bid string) int {
+		if bid == "" { return 400 }
+		config.DenyStore.DenyThen(bid, func() {})
+		config.CodeStore.Locked(bid)
+		notify <- bid
+		return 204
+	}
+}
+func abandonableHandler(config Config, notify chan string, gone chan struct{}) func(string) int {
+	return func(bid string) int {
+		config.DenyStore.DenyThen(bid, func() {})
+		select {
+		case notify <- bid:
+		case <-gone:
+			return 400
+		}
+		return 204
+	}
+}
 func API(config Config) []interface{} {
-	return []interface{}{sessionNested(config), denyNested(config), methodValueNested(config), sequential(config), harmlessCallback(config), callbackAfterUnlock(config)}
+	return []interface{}{sessionNested(config), denyNested(config), methodValueNested(config), sequential(config), harmlessCallback(config), callbackAfterUnlock(config),
+		completeHandler(config, nil), abandonableHandler(config, nil, nil)}
 }
 `
 
@@ -196,11 +217,12 @@ import (
 	"sync"
 	"time"
 	"github.com/eclesh/welford"
+	"github.com/gorilla/websocket"
 	"example.org/selftest/internal/chanmap"
 )
 type Frames struct { last time.Time; size *welford.Stats; ns *welford.Stats; mu *sync.RWMutex }
 type Stats struct { tx, rx *Frames }
-type Client struct { hub *Hub; send chan int; stats *Stats; topic string; buf []byte }
+type Client struct { hub *Hub; send chan int; stats *Stats; topic string; buf []byte; conn *websocket.Conn }
 type message struct { mt int; data []byte }
 type Hub struct { clients map[string]map[*Client]bool; dcs *chanmap.Store; mu *sync.RWMutex; unregister chan *Client; broadcast chan message }
 
@@ -307,97 +329,117 @@ func (c *Client) PumpWrittenAfter() { d := make([]byte, 4); c.hub.broadcast <- m
 func readInto(scratch *[]byte) []byte { buf := append((*scratch)[:0], 0); *scratch = buf; return buf }
 func (c *Client) PumpReusingHelper() { var s []byte; for { d := readInto(&s); c.hub.broadcast <- message{data: d} } }
 func (c *Client) PumpKeptInField() { d := make([]byte, 4); c.buf = d; c.hub.broadcast <- message{data: d} }
+func (c *Client) connWriter() { for { _ = c.conn.WriteMessage(1, nil); w, _ := c.conn.NextWriter(2); _ = w } }
+func (c *Client) ConnReaderPongsWithWriteControl() {
+	c.conn.SetPingHandler(func(d string) error { return c.conn.WriteControl(10, []byte(d), time.Now()) })
+	for { c.conn.ReadMessage() }
+}
+func (c *Client) ConnReaderPongsWithWriteMessage() {
+	c.conn.SetPingHandler(func(d string) error { return c.conn.WriteMessage(10, []byte(d)) })
+	for { c.conn.ReadMessage() }
+}
+func (c *Client) ConnSecondWriter() { _ = c.conn.WriteMessage(1, []byte("bye")) }
+func StartConn(c *Client) { go c.connWriter() }
 `
 
 type stExpect struct{ wl, nb, lo bool }
 
 // expected verdicts: well_locked, no_block_while_locked, lock_order_ok (the latter two imply the first)
 var stWant = map[string]stExpect{
-	"ttlcode.CodeStore.Locked":                    {true, true, true},
-	"ttlcode.CodeStore.UnlockedRead":              {false, false, false},
-	"ttlcode.CodeStore.UnlockedWrite":             {false, false, false},
-	"ttlcode.CodeStore.DeferUnlock":               {true, true, true},
-	"ttlcode.CodeStore.ReturnReadsUnderDefer":     {true, true, true},
-	"ttlcode.CodeStore.EarlyReturnNoUnlock":       {false, false, false},
-	"ttlcode.CodeStore.DoubleAcquire":             {false, false, false},
-	"ttlcode.CodeStore.UnlockThenRead":            {false, false, false},
-	"ttlcode.CodeStore.ConditionalUnlock":         {false, false, false},
-	"ttlcode.CodeStore.GoroutineLiteral":          {true, true, true},
-	"ttlcode.CodeStore.GoroutineLiteral$1":        {false, false, false},
-	"ttlcode.CodeStore.GoroutineLiteralLocked":    {true, true, true},
-	"ttlcode.CodeStore.GoroutineLiteralLocked$1":  {true, true, true},
-	"ttlcode.CodeStore.BreakHoldingLock":          {false, false, false},
-	"ttlcode.CodeStore.BreakAfterUnlock":          {true, true, true},
-	"ttlcode.CodeStore.ContinueHoldingLock":       {false, false, false},
-	"ttlcode.CodeStore.RangeDelete":               {true, true, true},
-	"ttlcode.CodeStore.RangeUnlocked":             {false, false, false},
-	"ttlcode.CodeStore.Inner":                     {true, true, true},
-	"ttlcode.CodeStore.OuterCallsInnerLocked":     {false, false, false},
-	"ttlcode.CodeStore.OuterCallsInner":           {true, true, true},
-	"ttlcode.CodeStore.SwitchReturns":             {true, true, true},
-	"ttlcode.CodeStore.SwitchForgetsUnlock":       {false, false, false},
-	"ttlcode.CodeStore.DeferredClosureUnlocks":    {true, true, true},
-	"ttlcode.NewStore":                            {true, true, true},
-	"deny.Store.Prune":                            {true, true, true},
-	"deny.Store.BadPrune":                         {false, false, false},
-	"deny.Store.WrongInstance":                    {false, false, false},
-	"chanmap.Store.AliasLocked":                   {true, true, true},
-	"chanmap.Store.AliasUsedAfterUnlock":          {false, false, false},
-	"chanmap.Store.CloseChildren":                 {true, true, true},
-	"crossbar.Hub.RLockRead":                      {true, true, true},
-	"crossbar.Hub.RLockThenWrite":                 {false, false, false},
-	"crossbar.Hub.InnerMapWrite":                  {true, true, true},
-	"crossbar.Hub.InnerMapWriteShared":            {false, false, false},
-	"crossbar.Hub.SelectDefaultSend":              {true, true, true},
-	"crossbar.Hub.BlockingSendWhileLocked":        {true, false, true},
-	"crossbar.Hub.BlockingSelectWhileLocked":      {true, false, true},
-	"crossbar.Hub.BlockingSendUnlocked":           {true, true, true},
-	"crossbar.Hub.NestedInOrder":                  {true, true, true},
-	"crossbar.Client.NestedOutOfOrder":            {true, true, false},
-	"crossbar.Client.TwoFramesNested":             {true, true, false},
-	"crossbar.Client.MutatingMethodUnderRLock":    {false, false, false},
-	"crossbar.Client.MutatingMethodUnderLock":     {true, true, true},
-	"crossbar.Client.ReadMethodUnderRLock":        {true, true, true},
-	"crossbar.Client.WrongFrames":                 {false, false, false},
-	"crossbar.Client.WrongClient":                 {false, false, false},
-	"crossbar.Hub.CrossPackageAfterUnlock":        {true, true, true},
-	"crossbar.Hub.CrossPackageWhileLocked":        {true, true, false},
-	"crossbar.Hub.run":                            {true, true, true},
-	"crossbar.Start":                              {true, true, true},
-	"ttlcode.CodeStore.SubmitIf":                  {true, true, true},
-	"ttlcode.CodeStore.PassesCallbackOn":          {true, true, true},
-	"ttlcode.CodeStore.ResolvedCallbackUnderLock": {true, true, true},
-	"ttlcode.CodeStore.ResolvedCallbackNoLock":    {false, false, false},
-	"deny.Store.Check":                            {true, true, true},
-	"deny.Store.DenyThen":                         {true, true, true},
-	"deny.Store.CallbackUnlocked":                 {true, true, true},
-	"access.API":                                  {true, true, true},
-	"access.sessionNested$1":                      {true, true, false},
-	"access.denyNested$1":                         {true, true, false},
-	"access.methodValueNested$1":                  {true, true, false},
-	"access.sequential$1":                         {true, true, true},
-	"access.harmlessCallback$1":                   {true, true, true},
-	"access.callbackAfterUnlock$1":                {true, true, true},
-	"relay.Run":                                   {true, true, true},
-	"relay.Run$1":                                 {true, true, true},
-	"crossbar.BuildThenPublish":                   {true, true, true},
-	"crossbar.PublishThenWrite":                   {false, false, false},
-	"crossbar.WriteAfterPublishingConstructor":    {false, false, false},
-	"crossbar.Client.SetTopic":                    {false, false, false},
-	"crossbar.PublishInLoop":                      {false, false, false},
-	"crossbar.CapturedThenWritten":                {false, false, false},
-	"crossbar.CapturedThenWritten$1":              {true, true, true},
-	"crossbar.Client.PumpFresh":                   {true, true, true},
-	"crossbar.Client.PumpMarshal":                 {true, true, true},
-	"crossbar.Hub.Forward":                        {true, true, true},
-	"crossbar.Hub.ForwardSelect":                  {true, true, true},
-	"crossbar.Client.PumpFreshHelper":             {true, true, true},
-	"crossbar.Client.PumpScratch":                 {false, false, false},
-	"crossbar.Client.PumpField":                   {false, false, false},
-	"crossbar.Client.PumpArgument":                {false, false, false},
-	"crossbar.Client.PumpWrittenAfter":            {false, false, false},
-	"crossbar.Client.PumpReusingHelper":           {false, false, false},
-	"crossbar.Client.PumpKeptInField":             {false, false, false},
+	"ttlcode.CodeStore.Locked":                          {true, true, true},
+	"ttlcode.CodeStore.UnlockedRead":                    {false, false, false},
+	"ttlcode.CodeStore.UnlockedWrite":                   {false, false, false},
+	"ttlcode.CodeStore.DeferUnlock":                     {true, true, true},
+	"ttlcode.CodeStore.ReturnReadsUnderDefer":           {true, true, true},
+	"ttlcode.CodeStore.EarlyReturnNoUnlock":             {false, false, false},
+	"ttlcode.CodeStore.DoubleAcquire":                   {false, false, false},
+	"ttlcode.CodeStore.UnlockThenRead":                  {false, false, false},
+	"ttlcode.CodeStore.ConditionalUnlock":               {false, false, false},
+	"ttlcode.CodeStore.GoroutineLiteral":                {true, true, true},
+	"ttlcode.CodeStore.GoroutineLiteral$1":              {false, false, false},
+	"ttlcode.CodeStore.GoroutineLiteralLocked":          {true, true, true},
+	"ttlcode.CodeStore.GoroutineLiteralLocked$1":        {true, true, true},
+	"ttlcode.CodeStore.BreakHoldingLock":                {false, false, false},
+	"ttlcode.CodeStore.BreakAfterUnlock":                {true, true, true},
+	"ttlcode.CodeStore.ContinueHoldingLock":             {false, false, false},
+	"ttlcode.CodeStore.RangeDelete":                     {true, true, true},
+	"ttlcode.CodeStore.RangeUnlocked":                   {false, false, false},
+	"ttlcode.CodeStore.Inner":                           {true, true, true},
+	"ttlcode.CodeStore.OuterCallsInnerLocked":           {false, false, false},
+	"ttlcode.CodeStore.OuterCallsInner":                 {true, true, true},
+	"ttlcode.CodeStore.SwitchReturns":                   {true, true, true},
+	"ttlcode.CodeStore.SwitchForgetsUnlock":             {false, false, false},
+	"ttlcode.CodeStore.DeferredClosureUnlocks":          {true, true, true},
+	"ttlcode.NewStore":                                  {true, true, true},
+	"deny.Store.Prune":                                  {true, true, true},
+	"deny.Store.BadPrune":                               {false, false, false},
+	"deny.Store.WrongInstance":                          {false, false, false},
+	"chanmap.Store.AliasLocked":                         {true, true, true},
+	"chanmap.Store.AliasUsedAfterUnlock":                {false, false, false},
+	"chanmap.Store.CloseChildren":                       {true, true, true},
+	"crossbar.Hub.RLockRead":                            {true, true, true},
+	"crossbar.Hub.RLockThenWrite":                       {false, false, false},
+	"crossbar.Hub.InnerMapWrite":                        {true, true, true},
+	"crossbar.Hub.InnerMapWriteShared":                  {false, false, false},
+	"crossbar.Hub.SelectDefaultSend":                    {true, true, true},
+	"crossbar.Hub.BlockingSendWhileLocked":              {true, false, true},
+	"crossbar.Hub.BlockingSelectWhileLocked":            {true, false, true},
+	"crossbar.Hub.BlockingSendUnlocked":                 {true, true, true},
+	"crossbar.Hub.NestedInOrder":                        {true, true, true},
+	"crossbar.Client.NestedOutOfOrder":                  {true, true, false},
+	"crossbar.Client.TwoFramesNested":                   {true, true, false},
+	"crossbar.Client.MutatingMethodUnderRLock":          {false, false, false},
+	"crossbar.Client.MutatingMethodUnderLock":           {true, true, true},
+	"crossbar.Client.ReadMethodUnderRLock":              {true, true, true},
+	"crossbar.Client.WrongFrames":                       {false, false, false},
+	"crossbar.Client.WrongClient":                       {false, false, false},
+	"crossbar.Hub.CrossPackageAfterUnlock":              {true, true, true},
+	"crossbar.Hub.CrossPackageWhileLocked":              {true, true, false},
+	"crossbar.Hub.run":                                  {true, true, true},
+	"crossbar.Start":                                    {true, true, true},
+	"ttlcode.CodeStore.SubmitIf":                        {true, true, true},
+	"ttlcode.CodeStore.PassesCallbackOn":                {true, true, true},
+	"ttlcode.CodeStore.ResolvedCallbackUnderLock":       {true, true, true},
+	"ttlcode.CodeStore.ResolvedCallbackNoLock":          {false, false, false},
+	"deny.Store.Check":                                  {true, true, true},
+	"deny.Store.DenyThen":                               {true, true, true},
+	"deny.Store.CallbackUnlocked":                       {true, true, true},
+	"access.API":                                        {true, true, true},
+	"access.sessionNested$1":                            {true, true, false},
+	"access.denyNested$1":                               {true, true, false},
+	"access.methodValueNested$1":                        {true, true, false},
+	"access.sequential$1":                               {true, true, true},
+	"access.harmlessCallback$1":                         {true, true, true},
+	"access.callbackAfterUnlock$1":                      {true, true, true},
+	"relay.Run":                                         {true, true, true},
+	"relay.Run$1":                                       {true, true, true},
+	"crossbar.BuildThenPublish":                         {true, true, true},
+	"crossbar.PublishThenWrite":                         {false, false, false},
+	"crossbar.WriteAfterPublishingConstructor":          {false, false, false},
+	"crossbar.Client.SetTopic":                          {false, false, false},
+	"crossbar.PublishInLoop":                            {false, false, false},
+	"crossbar.CapturedThenWritten":                      {false, false, false},
+	"crossbar.CapturedThenWritten$1":                    {true, true, true},
+	"crossbar.Client.PumpFresh":                         {true, true, true},
+	"crossbar.Client.PumpMarshal":                       {true, true, true},
+	"crossbar.Hub.Forward":                              {true, true, true},
+	"crossbar.Hub.ForwardSelect":                        {true, true, true},
+	"crossbar.Client.PumpFreshHelper":                   {true, true, true},
+	"crossbar.Client.PumpScratch":                       {false, false, false},
+	"crossbar.Client.PumpField":                         {false, false, false},
+	"crossbar.Client.PumpArgument":                      {false, false, false},
+	"crossbar.Client.PumpWrittenAfter":                  {false, false, false},
+	"crossbar.Client.PumpReusingHelper":                 {false, false, false},
+	"crossbar.Client.PumpKeptInField":                   {false, false, false},
+	"crossbar.Client.connWriter":                        {true, true, true},
+	"crossbar.Client.ConnReaderPongsWithWriteControl":   {true, true, true},
+	"crossbar.Client.ConnReaderPongsWithWriteControl$1": {true, true, true},
+	"crossbar.Client.ConnReaderPongsWithWriteMessage":   {true, true, true},
+	"crossbar.Client.ConnReaderPongsWithWriteMessage$1": {false, false, false},
+	"crossbar.Client.ConnSecondWriter":                  {false, false, false},
+	"crossbar.StartConn":                                {true, true, true},
+	"access.completeHandler$1":                          {true, true, true},
+	"access.abandonableHandler$1":                       {false, false, false},
 }
 
 // exact IR of a few corpus functions: guards against a translation that passes by producing nothing
